@@ -563,6 +563,12 @@ def comp_oracle(ctx, kind, cfg, events, replies):
             if ev["op"] == "renew" and st[3] is not None and st[4] is not None:
                 if st[4] - ev["now"] != st[3] * 1000000:
                     ctx.fail("renew-period", case, "next renewal %r us after firing, TTL %r" % (st[4] - ev["now"], st[3]))
+            if ev["op"] == "up" and ev["msg"] == ["result", 0] and st[1] == 0 and st[2] == ev["src"] and \
+                    (i == 0 or replies[i - 1]["st"][1] != -2) and st[3] is not None:
+                # J.5.2.3: the device may consider itself registered for TTL + 30 s after the acknowledgement
+                if st[5] is None or st[5] - ev["now"] != (st[3] + 30) * 1000000:
+                    ctx.fail("expiry-tracking", case, "after the acknowledgement at %d the registration is tracked until %r, "
+                             "expected TTL %d + 30 s" % (ev["now"], st[5], st[3]))
             if ev["op"] == "up" and ev["msg"][0] == "fwd":
                 ups = [o for o in r["out"] if o[0] == "up"]
                 ok = st[1] == 0 and st[2] == ev["src"]
@@ -928,7 +934,7 @@ class Spec:
         if op == "register":
             f, b = tuple(ev["a"]), tuple(ev["bbmd"])
             self.close_registration(f, t - 1)
-            self.reg[f] = {"bbmd": b, "ttl": ev["ttl"], "t0": t, "acked": self.is_bbmd(b)}
+            self.reg[f] = {"bbmd": b, "ttl": ev["ttl"], "t0": t, "t00": t, "acked": self.is_bbmd(b)}
         elif op == "unregister":
             f = tuple(ev["a"])
             r = self.reg.get(f)
@@ -1157,6 +1163,12 @@ def world_oracle(ctx, scn, real):
                     pres, last, ttl = sp.entry(rr["bbmd"], tuple(a), t)
                     if pres and not (d[4] // 1000000 < last // 1000000 + ttl + 5):
                         ctx.fail("renewal-late", case, "foreign device %r renews at %d, entry of %d runs out first" % (a, d[4], last))
+                if rr and rr.get("acked") and sp.is_bbmd(rr["bbmd"]) and d[1] == 0:
+                    p_us = rr["ttl"] * 1000000
+                    last_ack = rr["t00"] + ((t - rr["t00"]) // p_us) * p_us
+                    if d[5] != last_ack + (rr["ttl"] + 30) * 1000000:
+                        ctx.fail("expiry-tracking", case, "foreign device %r: last acknowledgement at %d, TTL %d, "
+                                 "registration tracked until %r (expected TTL + 30 s)" % (a, last_ack, rr["ttl"], d[5]))
                 if rr and rr.get("acked") and d[1] != 0 and sp.is_bbmd(rr["bbmd"]):
                     ctx.fail("registration-lost", case, "foreign device %r lost its registration status (%r)" % (a, d[1]))
 
